@@ -1,4 +1,5 @@
 #include <nano/solver/bundle.h>
+#include <nano/verif.h>
 
 using namespace nano;
 
@@ -80,6 +81,8 @@ void bundle_t::solve(const scalar_t miu, const logger_t& logger)
 
         m_alphas.slice(0, m_size) = solution.m_x;
     }
+    NANO_VERIF_TRACE("bundle.solve", miu, m_size, m_fx, m_x, m_alphas.slice(0, m_size), m_bundleE.slice(0, m_size),
+                     m_bundleS.slice(0, m_size));
 }
 
 void bundle_t::delete_inactive(const scalar_t epsilon)
@@ -131,8 +134,11 @@ void bundle_t::append(const vector_cmap_t y, const vector_cmap_t gy, const scala
     assert(dims() == y.size());
     assert(dims() == gy.size());
 
+    NANO_VERIF_TRACE("bundle.append.begin", serious_step, fy, m_fx, m_size, y, gy, m_x, m_alphas.slice(0, m_size),
+                     m_bundleE.slice(0, m_size), m_bundleS.slice(0, m_size));
     delete_inactive(epsilon0<scalar_t>());
     delete_largest(2);
+    NANO_VERIF_TRACE("bundle.append.kept", m_size, m_bundleE.slice(0, m_size), m_bundleS.slice(0, m_size));
 
     if (serious_step)
     {
@@ -149,6 +155,7 @@ void bundle_t::append(const vector_cmap_t y, const vector_cmap_t gy, const scala
         m_bundleS.tensor(m_size) = gy;
     }
     ++m_size;
+    NANO_VERIF_TRACE("bundle.append.end", m_size, m_bundleE.slice(0, m_size), m_bundleS.slice(0, m_size));
 
     assert(m_size < capacity());
 }
